@@ -211,7 +211,13 @@ func parseString(s *sqliState) int {
 }
 
 func parseWord(s *sqliState) int {
-	length := strLenCSpn(s.input[s.pos:], s.length-s.pos, wordAcceptTable)
+	// scan at most one token's worth of input first: the keyword-prefix rule
+	// below looks at nothing beyond it, and may consume only that prefix
+	window := s.length - s.pos
+	if window > tokenSize {
+		window = tokenSize
+	}
+	length := strLenCSpn(s.input[s.pos:], window, wordAcceptTable)
 	s.current.assign(sqliTokenTypeBareWord, s.pos, length, s.input[s.pos:])
 
 	// now we need to look inside what we good for "." and "`"
@@ -228,6 +234,11 @@ func parseWord(s *sqliState) int {
 				return s.pos + i
 			}
 		}
+	}
+
+	if length == tokenSize {
+		// no keyword prefix and no delimiter yet: the word runs on to the next delimiter
+		length += strLenCSpn(s.input[s.pos+tokenSize:], s.length-s.pos-tokenSize, wordAcceptTable)
 	}
 
 	// do normal lookup with word including '.'
